@@ -60,6 +60,9 @@ type copyCase struct {
 	// Resync: the destination was filled by an earlier CopyFileSystem from a source with the same paths, sizes and
 	// modification times but other bytes (a rebuild with a fixed build time stamp)
 	Resync bool `json:"resync,omitempty"`
+	// TooBig: the source also holds a file one MiB larger than the whole destination: the copy cannot fit. CopyFileSystem must
+	// say so - a copy that is reported as successful equals the source
+	TooBig bool `json:"too_big,omitempty"`
 	// KeepExcluded: the excluded names stay present on both sides of the comparison (they are invisible to CompareFS;
 	// the mutation is applied to what it is meant to see)
 	KeepExcluded bool `json:"excluded_names_present,omitempty"`
@@ -242,6 +245,15 @@ func runCopyCase(c *copyCase, t *treeSpec) (sig, msg, outcome string) {
 			return "", "", "dest-unavailable"
 		}
 	}
+	if c.TooBig {
+		tag += "|source-larger-than-destination"
+		t2 := &treeSpec{Dirs: t.Dirs, Files: map[string][]byte{}}
+		for k, v := range t.Files {
+			t2.Files[k] = v
+		}
+		t2.Files["zz-too-big.bin"] = patternBytes(77, int(dst.cfg.Size)+1<<20)
+		src = treeToMapFS(t2)
+	}
 	if c.Resync {
 		tag += "|resync-same-size-and-time"
 		prev := &treeSpec{Dirs: t.Dirs, Files: map[string][]byte{}}
@@ -262,6 +274,9 @@ func runCopyCase(c *copyCase, t *treeSpec) (sig, msg, outcome string) {
 		return "copy|" + tag + "|" + pm, "CopyFileSystem panicked: " + pm, "panic"
 	}
 	if cerr != nil {
+		if c.TooBig {
+			return "", "", "refused:source-larger-than-destination" // the only honest answer
+		}
 		return "copy|" + tag + "|failed|" + errShape(cerr.Error()), "CopyFileSystem failed: " + cerr.Error(), "copy-error"
 	}
 	// what the source shows through its own fs.FS view (the statement's "equal the source"), minus the excluded names
@@ -663,6 +678,15 @@ func C16(r *ev.Run) {
 				}
 				cases = append(cases, copyCase{Kind: "copy", Tree: ti, Tier: r.Tier, Src: "mapfs", Dst: d, Pre: true})
 			}
+			// ... a source that cannot fit into the destination
+			if ti%5 == 0 || ti >= len(trees)-2 {
+				for di, d := range dsts {
+					if r.Quick() && (ti+di)%2 != 0 && ti < len(trees)-2 {
+						continue
+					}
+					cases = append(cases, copyCase{Kind: "copy", Tree: ti, Tier: r.Tier, Src: "mapfs", Dst: d, TooBig: true})
+				}
+			}
 			// ... and over a destination that an earlier copy filled from a source with the same paths, sizes and times
 			for di, d := range dsts {
 				if r.Quick() && (ti+di)%2 != 1 && ti < len(trees)-2 {
@@ -737,7 +761,7 @@ func C16(r *ev.Run) {
 	r.Set("evaluations", int64(done))
 	r.Set("distinct_nontrivial", int64(ok.n()))
 	r.Set("distinct_outcomes", outcomes.snapshot())
-	r.Set("rule", "trees: every ordered forest with <= 4 (quick: 3) nodes x name/size rotations (sizes {0,1,2047,2048,2049}), a tree with the excluded names at the root and nested, a tree of files sized around CompareFS's 32 KiB chunk; copy: source {MapFS, os directory, fat32, ext4, iso9660, squashfs} x destination {fat12, fat16, fat32, ext4}, destination compared with the source by an independent walk, CompareFS on the faithful copy in both argument orders; a 64 MiB+1234-byte file from a synthetic sparse source through the streaming branch; compare: for every tree every single-point mutation (per file: flip first/last/byte 32767/byte 32768, drop last byte, append a byte, remove, turn into a directory; per directory: add a file or a directory whose name sorts last, or first, remove it, turn it into a file) in both argument orders must be reported, for the tree with excluded names also with those names present on both sides; copies also into a destination that already holds longer files at the same paths, and into one that an earlier CopyFileSystem filled from a source with the same paths, sizes and modification times but other bytes. non-trivial = distinct copy cases verified end to end + distinct mutations detected")
+	r.Set("rule", "trees: every ordered forest with <= 4 (quick: 3) nodes x name/size rotations (sizes {0,1,2047,2048,2049}), a tree with the excluded names at the root and nested, a tree of files sized around CompareFS's 32 KiB chunk; copy: source {MapFS, os directory, fat32, ext4, iso9660, squashfs} x destination {fat12, fat16, fat32, ext4}, destination compared with the source by an independent walk, CompareFS on the faithful copy in both argument orders; a 64 MiB+1234-byte file from a synthetic sparse source through the streaming branch; compare: for every tree every single-point mutation (per file: flip first/last/byte 32767/byte 32768, drop last byte, append a byte, remove, turn into a directory; per directory: add a file or a directory whose name sorts last, or first, remove it, turn it into a file) in both argument orders must be reported, for the tree with excluded names also with those names present on both sides; copies also into a destination that already holds longer files at the same paths, and into one that an earlier CopyFileSystem filled from a source with the same paths, sizes and modification times but other bytes; and from a source that holds a file larger than the whole destination (the copy must be refused, or equal the source). non-trivial = distinct copy cases verified end to end + distinct mutations detected")
 	r.Set("exhaustive", done >= len(cases))
 	_ = filepath.Join
 	_ = filesystem.ErrNotSupported
